@@ -102,7 +102,12 @@ def _q18(ra, rb, enabled, step, ea, eb, reject):
             if table != want:
                 return "hashing %s, records A:%s B:%s: status shows %s, expected %s" % (enabled, RECS[ra], RECS[rb], table, want)
         elif step_name == "dry-run":
+            w.clear_records()
             w.run(dry_run=True)
+            would = sorted(w.would_submit())
+            want_w = sorted(pr.names[i] for i in sub)
+            if would != want_w:
+                return "hashing %s, records A:%s B:%s, files a:%s b:%s: the dry run announces %s, the records and files call for %s" % (enabled, RECS[ra], RECS[rb], ea, eb, would, want_w)
         elif step_name == "run":
             try:
                 w.run()
